@@ -121,6 +121,40 @@ func cursorStart(outer *loop) string {
 	if n == 0 {
 		return "the scanning loop has no integer cursor"
 	}
+	// the scan is the whole comparison: an answer given in front of the loop (a fast path for a
+	// special shape of operands) is a second comparator whose agreement with the scan is not
+	// decided here; `if a == b { return 0 }` is the one shortcut that cannot disagree
+	fn := outer.header.Parent()
+	reach := map[*ssa.BasicBlock]bool{}
+	var mark func(b *ssa.BasicBlock)
+	mark = func(b *ssa.BasicBlock) {
+		if reach[b] {
+			return
+		}
+		reach[b] = true
+		for _, s := range b.Succs {
+			mark(s)
+		}
+	}
+	mark(outer.header)
+	for _, b := range fn.Blocks {
+		ret, ok := b.Instrs[len(b.Instrs)-1].(*ssa.Return)
+		if !ok || reach[b] || len(ret.Results) != 1 {
+			continue
+		}
+		if k, ok := constInt(ret.Results[0]); ok && k == 0 && len(fn.Params) >= 2 {
+			if domEdges(b, func(cond ssa.Value, tv bool) bool {
+				bo, ok := cond.(*ssa.BinOp)
+				if !ok || !tv || bo.Op != token.EQL {
+					return false
+				}
+				return bo.X == ssa.Value(fn.Params[0]) && bo.Y == ssa.Value(fn.Params[1]) || bo.X == ssa.Value(fn.Params[1]) && bo.Y == ssa.Value(fn.Params[0])
+			}) {
+				continue
+			}
+		}
+		return fmt.Sprintf("%s answers in front of the scanning loop (%s): a second comparison path for some shape of operands, whose agreement with the scan of runs is not decided", fn.Name(), fn.Prog.Fset.Position(ret.Pos()))
+	}
 	return ""
 }
 
